@@ -351,6 +351,11 @@ def run(ctx):
         "documents come from XalanSourceTree (indexed native tree); Xerces parsing is trusted",
         "ICU/glibc: only sprintf/atof (see C18)",
     ]
+    ctx.notes["rule"] = ("expressions generated from a typed grammar (every operator, axis, node test, core function; "
+                         "boundary streams for string search, comparisons hinging on equality, numbers) x generated documents x "
+                         "context node/list; distinct = distinct expression strings; non-trivial = the expression contains at least "
+                         "one operator, function call or location step (every generated case does); the malformed stream counts "
+                         "separately (malformed_checked)")
     ok_lib, liblog = core.build_lib("plain")
     if not ok_lib:
         ctx.broken.append("library does not build from the working tree: " + liblog[-500:])
